@@ -343,11 +343,16 @@ pub fn inner_layout<T: ?Sized>(a: &Arc<T>) -> (usize, usize) {
         (l.size(), l.align())
     }
 }
-/// A handle is valid when it refers to a live block whose count is >= 1; with the ghost
-/// allocator on, the block must be one the allocator handed out, with the layout
-/// `Layout::for_value` re-derives from the (fat) pointer — which is what a later release uses.
+/// A handle is valid when it refers to a live block (one the ghost allocator handed out and has
+/// not taken back) whose count is >= 1.
 pub fn valid<T: ?Sized>(a: &Arc<T>) -> bool {
-    cnt(a) >= 1 && (!g_on() || (g_live(base(a)) && g_req(base(a)) == inner_layout(a)))
+    cnt(a) >= 1 && glive_at(base(a))
+}
+/// ... and the layout `Layout::for_value` re-derives from the (fat) pointer — which is what a later
+/// release hands to the allocator — equals the layout the block was requested with. Ensured by every
+/// constructor and every type- or metadata-changing conversion, required by the release functions.
+pub fn valid_layout<T: ?Sized>(a: &Arc<T>) -> bool {
+    valid(a) && (!g_on() || g_req(base(a)) == inner_layout(a))
 }
 /// Δ0 for an operation that keeps the handle: count as before, allocator untouched
 pub fn delta0<T: ?Sized>(a: &Arc<T>, old_cnt: usize, old_g: (usize, usize)) -> bool {
@@ -499,6 +504,17 @@ tracked!(Tr8, 1, 8, 22);
 tracked!(Tr16, 2, 16, 30);
 tracked!(Tr64, 3, 64, 62);
 
+/// payload WITHOUT drop glue whose Clone is observable (a bitwise copy instead of Clone is a C08 violation)
+pub struct Cc(pub u32);
+impl Clone for Cc {
+    fn clone(&self) -> Self {
+        unsafe {
+            CLONES += 1;
+        }
+        Cc(self.0)
+    }
+}
+
 /// zero-sized payload with drop glue (counts only)
 pub struct Zd;
 pub static mut ZDROPS: usize = 0;
@@ -584,6 +600,7 @@ pub mod atomic {
         Sub,
         Cas,
         Fence,
+        CompilerFence,
         PayloadDrop,
         Dealloc,
         Other,
@@ -737,7 +754,7 @@ pub mod atomic {
             let mut ok = !T_OVERFLOW;
             while i < TLEN {
                 let e = TRACE[i];
-                if e.k != K::Load && e.k != K::Fence {
+                if e.k != K::Load && e.k != K::Fence && e.k != K::CompilerFence {
                     ok = false;
                 }
                 i += 1;
@@ -823,6 +840,24 @@ pub mod atomic {
             push(K::Other, oc(o), r);
             r
         }
+        pub fn fetch_update<F: FnMut(usize) -> Option<usize>>(&self, s: Ordering, f: Ordering, g: F) -> Result<usize, usize> {
+            let r = self.0.fetch_update(s, f, g);
+            push(K::Cas, oc(s), match r { Ok(v) => v, Err(v) => v });
+            r
+        }
+        pub fn fetch_max(&self, v: usize, o: Ordering) -> usize {
+            let r = self.0.fetch_max(v, o);
+            push(K::Other, oc(o), r);
+            r
+        }
+        pub fn fetch_min(&self, v: usize, o: Ordering) -> usize {
+            let r = self.0.fetch_min(v, o);
+            push(K::Other, oc(o), r);
+            r
+        }
+        pub fn into_inner(self) -> usize {
+            self.0.into_inner()
+        }
         pub fn get_mut(&mut self) -> &mut usize {
             push(K::Other, 0, 0);
             self.0.get_mut()
@@ -834,6 +869,11 @@ pub mod atomic {
     pub fn fence(o: Ordering) {
         push(K::Fence, oc(o), 0);
         real::fence(o)
+    }
+    /// a compiler fence orders nothing between threads: recorded, but never acquire/release-class
+    pub fn compiler_fence(o: Ordering) {
+        push(K::CompilerFence, oc(o), 0);
+        real::compiler_fence(o)
     }
 }
 
